@@ -225,7 +225,11 @@ def main(argv=None):
         coverage.setdefault("set_members", {})[k] = sorted(map(str, sets.get(k, ())))[:200]
     if anchor_cov:
         coverage["anchor_coverage"] = anchor_cov
-    if meta.get("exhaustive") and notes.get("stopped") == {"exhausted"}:
+    nsum = sum(1 for (_i, out, _p, _l) in procs if os.path.exists(out))
+    complete = (notes.get("stopped") == {"exhausted"} or
+                (notes.get("exhaustive_stratum") == {"complete"} and
+                 counters.get("exhaustive_strata_completed", 0) == nsum == nshards))
+    if meta.get("exhaustive") and complete and not inconclusive:
         coverage["exhaustive"] = True
         coverage["exhaustive_domain"] = meta["exhaustive"]
     ev = {
